@@ -86,8 +86,10 @@ def main(argv=None):
     prop = a.prop
     t0 = time.time()
     os.chdir(ROOT)
-    os.makedirs("evidence", exist_ok=True)
-    os.makedirs("replays", exist_ok=True)
+    EVD = os.environ.get("VERIF_EVIDENCE_DIR", "evidence")
+    RPD = os.environ.get("VERIF_REPLAY_DIR", "replays")
+    os.makedirs(EVD, exist_ok=True)
+    os.makedirs(RPD, exist_ok=True)
     if a.replay:
         from vt import replay as R
         return R.replay_file(a.replay)
@@ -179,12 +181,12 @@ def main(argv=None):
     from vt import replay as R
     vlines = []
     for c in violations:
-        path = os.path.join("replays", "%s-%s.json" % (prop, re.sub(r"[^A-Za-z0-9_.-]", "_", c["obligation"])))
+        path = os.path.join(RPD, "%s-%s.json" % (prop, re.sub(r"[^A-Za-z0-9_.-]", "_", c["obligation"])))
         rep = R.make_replay(prop, c, path, seed, mod)
         tail = "" if rep.get("reproduced") else " no-failing-input-found"
         vlines.append("VIOLATION property=%s replay=%s obligation=%s%s" % (prop, path, c["obligation"], tail))
     for k, c in kfound:
-        path = os.path.join("replays", "%s-%s.known.json" % (prop, re.sub(r"[^A-Za-z0-9_.-]", "_", c["obligation"])))
+        path = os.path.join(RPD, "%s-%s.known.json" % (prop, re.sub(r"[^A-Za-z0-9_.-]", "_", c["obligation"])))
         try:
             R.make_replay(prop, c, path, seed, mod, known=k)
         except Exception:
@@ -222,7 +224,12 @@ def main(argv=None):
         "wall_s": round(time.time() - t0, 2),
         "violations": len(violations),
     }
-    json.dump(ev, open(os.path.join("evidence", prop + ".json"), "w"), indent=1, default=str)
+    selftest = None
+    if tier == "thorough" and not os.environ.get("VERIF_NO_SELFTEST") and not violations:
+        from vt import selftest as ST
+        selftest = ST.run(prop, seed)
+        ev["coverage"]["selftest"] = selftest
+    json.dump(ev, open(os.path.join(EVD, prop + ".json"), "w"), indent=1, default=str)
     for k, c in kfound:
         print("KNOWN-FINDING: property=%s %s [%s] %s" % (prop, k["id"], c["obligation"], k["what"]))
     if a.v or violations or undecided or errors:
@@ -245,6 +252,12 @@ def main(argv=None):
         for r in xbad:
             print("CHECKER-ERROR encoding cross-check '%s': the NumPy model of the VC generator disagrees with real NumPy: %s" % (
                 r["group"], json.dumps(r.get("mismatches") or r.get("error"))[:600]))
+        return 3
+    if selftest and (selftest["missed"] or selftest["false_alarms"]):
+        for m_ in selftest["missed"]:
+            print("CHECKER-ERROR self-test: seeded change %s (breaks %s) is not detected by this check" % (m_, prop))
+        for m_ in selftest["false_alarms"]:
+            print("CHECKER-ERROR self-test: semantics-preserving rewrite %s raises an alarm" % m_)
         return 3
     if ctrl_bad:
         for c in ctrl_bad:
